@@ -552,6 +552,8 @@ func normSleep(ev []vh.Event) []vh.Event {
 		}
 		out[i] = e
 	}
+	// ... and neither is the order in which goroutines of the same sleep class act (seen once in 28 000 behaviours)
+	sort.SliceStable(out, func(i, j int) bool { return fmt.Sprint(out[i]) < fmt.Sprint(out[j]) })
 	return out
 }
 
